@@ -25,8 +25,8 @@ startTestRun, whether failfast is on, and whether the run has been stopped.
 Any exception escaping the code under test is a violation as well.
 
 ENUMERATION.  Stacks: leaves TR, Text, TBT (own), ETSD (ExtendedToStreamDecorator over a stream double;
-failfast = StreamFailFast) and the py26/py27/extended/twisted doubles (each behind its own
-ExtendedToOriginalDecorator); wrappers ETOD, TRD (TestResultDecorator), Tagger, TFR, Multi, depth 0..3.  failfast: off,
+failfast = StreamFailFast) and the py26/py27/extended/twisted doubles (behind the ETOD that ETOD / Multi /
+TFR above them provide, else behind their own); wrappers ETOD, TRD (TestResultDecorator), Tagger, TFR, Multi, depth 0..3.  failfast: off,
 "before" (constructor / attribute before wrapping), "after" (on the underlying results after wrapping),
 "top" (on the outermost adapter, only where every layer forwards the attribute: ETOD / Multi chains).
 Exhaustive part: every history of <= 2 outcomes (6 outcomes, exc_info or details form) with no / one run
@@ -113,7 +113,7 @@ class Stack:
         elif failfast == "top":
             self.top.failfast = True
 
-    def _build(self, spec):
+    def _build(self, spec, parent=None):
         import testtools
         from testtools.testresult import doubles, real as R
         if isinstance(spec, str):
@@ -126,16 +126,17 @@ class Stack:
                 obj = testtools.TestByTestResult(lambda **kw: None)
             elif spec == "ETSD":
                 obj = testtools.ExtendedToStreamDecorator(doubles.StreamResult())
-            else:  # the doubles do not stop themselves: each sits behind its own ETOD
-                cls = {"py26": doubles.Python26TestResult, "py27": doubles.Python27TestResult,
-                       "ext": doubles.ExtendedTestResult, "twisted": doubles.TwistedTestResult}[spec]
-                obj = testtools.ExtendedToOriginalDecorator(cls())
+            else:  # the doubles rely on an ETOD: the one ETOD / Multi / TFR put there, else their own
+                obj = {"py26": doubles.Python26TestResult, "py27": doubles.Python27TestResult,
+                       "ext": doubles.ExtendedTestResult, "twisted": doubles.TwistedTestResult}[spec]()
+                if parent not in ("ETOD", "Multi", "TFR"):
+                    obj = testtools.ExtendedToOriginalDecorator(obj)
             if self.pre and spec not in ("TR", "Text"):
                 obj.failfast = True
             self.units.append(obj)
             self.kinds.append(spec)
             return obj
-        kids = [self._build(k) for k in spec[1:]]
+        kids = [self._build(k, spec[0]) for k in spec[1:]]
         if spec[0] == "ETOD":
             return testtools.ExtendedToOriginalDecorator(kids[0])
         if spec[0] == "TRD":
@@ -163,10 +164,6 @@ class Model:
         self.problems.append((LABEL[letter], test_id))
         self.stopped = self.stopped or self.ff
 
-    def stop(self):
-        fresh, self.stopped = not self.stopped, True
-        return fresh
-
     def start_run(self):
         self.n, self.problems = 0, []
         if self.stopped:  # unspecified whether a new run clears the flag: re-read it
@@ -185,8 +182,8 @@ class Model:
             raise Violation("%s: shouldStop == %r on the top of the stack (failfast %s)"
                             % (where, got, self.sc["failfast"]), STOP_RULE + "; here " + str(self.stopped))
         if fresh_stop or not self.stopped:
-            flags = [bool(real("shouldStop", getattr, u, "shouldStop")) for u in self.stack.units]
-            if any(f != self.stopped for f in flags):
+            flags = [real("shouldStop", getattr, u, "shouldStop", None) for u in self.stack.units]
+            if any(f is not None and bool(f) != self.stopped for f in flags):  # None: Twisted-style
                 raise Violation("%s: shouldStop of the underlying results %r == %r"
                                 % (where, self.stack.kinds, flags), STOP_RULE + "; here all " + str(self.stopped))
 
@@ -237,7 +234,8 @@ def run_history(sc):
             model.check(where)
         elif op == "stop":
             real(where, top.stop)
-            model.check(where, model.stop())
+            model.stopped = True
+            model.check(where, True)
         elif len(op) == 1 and op.upper() in OUT:
             test = Sample("test_it") if i % 2 else testtools.PlaceHolder("t%d" % i)
             kind, det = op.upper(), op.islower()
@@ -532,6 +530,8 @@ HINT_WORDS = {"MultiTestResult": '"Multi"', "ThreadsafeForwardingResult": '"TFR"
 
 def hint_words(obligation_json):
     try:
+        if os.path.isfile(obligation_json):
+            obligation_json = open(obligation_json).read()
         target = str(json.loads(obligation_json).get("target", ""))
     except Exception:
         return []
@@ -564,6 +564,8 @@ def drive(args):
     for sc in itertools.chain(exhaustive, (random_scenario(rng) for _ in itertools.count())):
         if time.monotonic() >= deadline:
             break
+        if count == len(exhaustive):
+            print("C04: exhaustive part done after %.1fs" % (time.monotonic() - deadline + args.budget))
         if sc["kind"] != "run" and not applicable(sc):
             continue
         finding = run_scenario(sc)
